@@ -519,3 +519,56 @@ T("C01", "twin-view-short-last-word-ends-loop", X, _DECODE_LOOP,
   "            nonce = chunk\n"
   "            if last or (n > 0 and len(data) >= n):\n"
   "                break\n")
+
+# ================================================================================================ R12: no answer looked up by file object in a store that outlives the call
+P = "pe.py"
+_XF_BODY0 = "        eof_shellcode_offsets = []\n        nonce_offsets = []\n\n        nonce_offsets = list(iter_nonce_offsets(fh, maxrange=maxrange))\n"
+_XF_FAIL = "        raise ValueError(f\"MZ header not found for: {fh}\")\n"
+_XF_HIT = "                xf.seek(0)\n                return xf\n"
+_XF_MARKER = "    EOF_SHELLCODE_MARKER = b\"\\xff\\xff\\xff\"\n"
+_MZ_DEF = "def find_mz_offset(fh: BinaryIO, start_offset: int = 0, maxrange: int = 1024) -> Optional[int]:\n"
+_XOR_DEF = "def xor(data: bytes, key: bytes) -> bytes:\n"
+# the MZ probe memoised with functools: keyed by the identity of the file object
+M("C01", "mz-probe-lru-cache-on-file-object", P, _MZ_DEF, "", "C01.R12", edits=[
+    (P, "import io\nimport logging\n", "import functools\nimport io\nimport logging\n"),
+    (P, _MZ_DEF, "@functools.lru_cache(maxsize=64)\n" + _MZ_DEF),
+])
+# negative outcome remembered in a class-level set of id(fh)
+M("C01", "xorencoded-negative-cache-by-id", X, _XF_BODY0, "", "C01.R12", edits=[
+    (X, _XF_MARKER, _XF_MARKER + "    _NOT_XORENCODED = set()\n"),
+    (X, _XF_FAIL, "        cls._NOT_XORENCODED.add(id(fh))\n" + _XF_FAIL),
+    (X, _XF_BODY0, "        if id(fh) in cls._NOT_XORENCODED:\n            raise ValueError(f\"MZ header not found for: {fh}\")\n" + _XF_BODY0),
+])
+# positive outcome kept in a module-level dict, looked up with .get() under the file's name
+M("C01", "xorencoded-offset-cache-by-name", X, _XF_BODY0, "", "C01.R12", edits=[
+    (X, "logger = logging.getLogger(__name__)\n", "logger = logging.getLogger(__name__)\n_KNOWN_OFFSETS = {}\n"),
+    (X, _XF_BODY0, "        known = _KNOWN_OFFSETS.get(getattr(fh, \"name\", None))\n        if known is not None:\n"
+                   "            xf = cls(fh, nonce_offset=known)\n            xf.seek(0)\n            return xf\n" + _XF_BODY0),
+    (X, _XF_HIT, "                _KNOWN_OFFSETS[getattr(fh, \"name\", None)] = found_nonce_offset\n" + _XF_HIT),
+])
+# the offset noted on the caller's file object itself
+M("C01", "xorencoded-offset-planted-on-file-object", X, _XF_BODY0, "", "C01.R12", edits=[
+    (X, _XF_BODY0, "        known = getattr(fh, \"_cs_nonce_offset\", None)\n        if known is not None:\n"
+                   "            xf = cls(fh, nonce_offset=known)\n            xf.seek(0)\n            return xf\n" + _XF_BODY0),
+    (X, _XF_HIT, "                with contextlib.suppress(AttributeError):\n                    fh._cs_nonce_offset = found_nonce_offset\n" + _XF_HIT),
+])
+# the detection in a helper that returns the offset or None, not memoised (the refactoring the seeded change started from)
+T("C01", "twin-nonce-offset-helper-no-memo", X, _XF_BODY0, "", edits=[
+    (X, _XF_HIT, "                return found_nonce_offset\n"),
+    (X, _XF_FAIL, "        return None\n"),
+    (X, _XF_BODY0, "        nonce_offset = cls.find_nonce_offset(fh, maxrange=maxrange)\n        if nonce_offset is None:\n"
+                   "            raise ValueError(f\"MZ header not found for: {fh}\")\n        xf = cls(fh, nonce_offset=nonce_offset)\n        xf.seek(0)\n        return xf\n\n"
+                   "    @classmethod\n    def find_nonce_offset(cls, fh: BinaryIO, maxrange: int = 1024):\n" + _XF_BODY0),
+])
+# memo keyed by value (immutable bytes arguments), no file object involved
+T("C01", "twin-xor-lru-cache-by-value", "utils.py", _XOR_DEF, "", edits=[
+    ("utils.py", "import errno\nimport io\n", "import errno\nimport functools\nimport io\n"),
+    ("utils.py", _XOR_DEF, "@functools.lru_cache(maxsize=1024)\n" + _XOR_DEF),
+])
+# a run-time-filled module-level table keyed by the XOR key bytes (not by a file object): not a subject of R12's verdict
+T("C01", "twin-needle-table-by-key", B, _FIND_DEF, "_NEEDLES = {}\n\n\n" + _FIND_DEF, edits=[
+    (B, "    xorred_config_block = xor(CONFIG_HEADER, xorkey)\n",
+        "    if xorkey not in _NEEDLES:\n        _NEEDLES[xorkey] = xor(CONFIG_HEADER, xorkey)\n    xorred_config_block = _NEEDLES[xorkey]\n"),
+])
+# the outcome remembered on the view instance that the call itself creates
+T("C01", "twin-view-instance-cache", X, "        self.nonced_filesize = self.fh.read(4)\n", "        self.nonced_filesize = self.fh.read(4)\n        self._sizes = {}\n        self._sizes[nonce_offset] = self.nonced_filesize\n")
